@@ -491,6 +491,9 @@ func DumpTable(p *Program, spec string, resIdx int) {
 	if resIdx < 0 {
 		resIdx = ErrIndex(fn)
 	}
+	if resIdx < 0 {
+		resIdx = 0
+	}
 	t, err := ExtractTable(fn, resIdx)
 	if err != nil {
 		fmt.Println(err)
